@@ -93,8 +93,8 @@ CHECKS.update({
             "instantiations is NOT decided beyond the template shape."),
     "C09": ("DESIGN.md section 3/C09",
             "resolved-callee comparison on MIR; decision tables on the syntax tree",
-            "Decides: field sites and variant sites must not share one context-free conversion (R1, known finding: they do); naming precedence at "
-            "the three sites over the un-raw'ed identifier (R2); rename_all_fields routing and precedence in from_variant (R3). Equality of each "
+            "Decides: field sites and variant sites must not share one context-free conversion and each site uses the conversion of its role (R1, R2; "
+            "repaired by 43fb687); naming precedence at the three sites over the un-raw'ed identifier (R2); rename_all_fields routing and precedence in from_variant (R3). Equality of each "
             "conversion with serde's on every identifier is a string-function equality and is NOT decided."),
     "C12": ("DESIGN.md section 3/C12",
             "table extraction from macro invocations and impl templates; call-set comparison on MIR",
